@@ -241,7 +241,7 @@ def run(ctx, b, drv):
     base.obligations(ctx, b, pend, ['Cache.v', 'Properties/C16.v'])
     root = os.path.join(common.WORK, 'c16-%d' % os.getpid())
     try:
-        n = base.scale(ctx, 400)
+        n = 400 if ctx.tier == 'quick' else 8000
         reqs, keys, hs, allobs = [], [], [], []
         for i in range(n):
             r = gens.rng(ctx.seed, 'cache', i)
@@ -270,7 +270,7 @@ def run(ctx, b, drv):
                     pend.add('correspondence-broken:cache', dict(kind='theorem', obligation='correspondence stream `cache` (Cache.v model with flags %s vs implementation)' % (MODEL_FLAGS,),
                                                                  steps=[list(x) for x in h], key=list(key), impl=exp, model=o))
         ctx.cov['disagreements_checked'] = bad
-        for i in range(base.scale(ctx, 800)):
+        for i in range(800 if ctx.tier == 'quick' else 16000):
             r = gens.rng(ctx.seed, 'cache-mixed', i)
             h = gen_history(r, mixed=True)
             obs, W = run_history(h, root, gc_trigger=r.choice([None, 1, 2, 3]))
